@@ -141,6 +141,109 @@ def registration_order(e0: bool, e1: bool, e2: bool, t0: bool, t1: bool, t2: boo
     return H.done(ok)
 
 
+TYPES3 = [(int, 'int'), (object, 'object'), (str, 'str')]
+
+
+def real_order(t0: int, t1: int, t2: int, p: int, bykw: bool, recv: bool) -> bool:
+    """
+    pre: 0 <= t0 < 3 and 0 <= t1 < 3 and 0 <= t2 < 3 and 0 <= p < 6
+    post: _
+    """
+    # REAL overloads (real map_args/get_delegate/PythonType) in one layer whose enumeration order is imposed by a Context
+    # subclass; call f(1) positionally or as f(x => 1): the outcome must not depend on the enumeration order
+    from yaql.language import contexts, exceptions, specs
+    from props import c05_bind as B
+    tt = [N3[t0][0], N3[t1][0], N3[t2][0]]
+    order, bykw, recv = X.PERMS3[p], TF2[int(bykw)][0], TF2[int(recv)][0]
+    with H.NoTracing():
+        class OrderedContext(contexts.Context):
+            seq = None
+
+            def get_functions(self, name, predicate=None, use_convention=False):
+                fs, excl = super().get_functions(name, predicate, use_convention)
+                return sorted(fs, key=lambda fd: self.seq.index(fd.meta.get('cid', 0)) if 'cid' in fd.meta else 99), excl
+
+        def outcome(seq):
+            ctx = OrderedContext(B.ROOT)
+            ctx.seq = list(seq)
+            for i in range(3):
+                def payload(x, _i=i):
+                    return ('ran', _i)
+                fd = specs.get_function_definition(payload, name='f', method=True)
+                fd.set_parameter('x', TYPES3[tt[i]][0], overwrite=True)
+                fd.meta['cid'] = i
+                ctx.register_function(fd)
+            c = ctx.create_child_context()
+            c['v'] = 1
+            text = ('$v.f()' if recv else ('f(x => $v)' if bykw else 'f($v)'))
+            try:
+                return B.ENG(text).evaluate(context=c)
+            except (exceptions.NoMatchingFunctionException, exceptions.NoMatchingMethodException,
+                    exceptions.AmbiguousFunctionException, exceptions.AmbiguousMethodException) as e:
+                return type(e).__name__
+        ok = outcome(order) == outcome(X.PERMS3[0])
+    return H.done(ok)
+
+
+N3 = [(0,), (1,), (2,)]
+TF2 = [(False,), (True,)]
+
+
+def multi_order(t0: int, t1: int, e0: bool, e1: bool, k0: int, k1: int) -> bool:
+    """
+    pre: 0 <= t0 < 3 and 0 <= t1 < 3 and 0 <= k0 < 3 and 0 <= k1 < 3
+    post: _
+    """
+    # the order of the members of a MultiContext is an enumeration order too: MultiContext([A, B]) and ([B, A]) must give
+    # the same layer (same overloads, same exclusivity) and the same call outcome; also one callable registered twice
+    # (function form and method form) must be callable both ways whatever the registration order
+    from yaql.language import contexts, exceptions, specs
+    from props import c05_bind as B
+    t0, t1, k0, k1 = N3[t0][0], N3[t1][0], N3[k0][0], N3[k1][0]
+    e0, e1 = TF2[int(e0)][0], TF2[int(e1)][0]
+    with H.NoTracing():
+        def payload(x):
+            return 'shared-payload'
+
+        def build(swap, reg_swap):
+            parent = contexts.Context(B.ROOT)
+
+            def pp(x):
+                return 'parent'
+            parent.register_function(pp, name='f')
+            A, Bc = contexts.Context(parent), contexts.Context(parent)
+            defs = []
+            for (ctx, t, e, kind, tag) in ((A, t0, e0, k0, 'A'), (Bc, t1, e1, k1, 'B')):
+                def pl(x, _tag=tag):
+                    return _tag
+                fd = specs.get_function_definition(pl, name='f')
+                fd.set_parameter('x', TYPES3[t][0], overwrite=True)
+                fd.is_function, fd.is_method = kind in (0, 2), kind in (1, 2)
+                defs.append((ctx, fd, e))
+            # one callable registered twice in A: as a function and as a method
+            f1 = specs.get_function_definition(payload, name='g', function=True, method=False)
+            f2 = specs.get_function_definition(payload, name='g', function=False, method=True)
+            regs = [(lambda: A.register_function(f1)), (lambda: A.register_function(f2))]
+            for r in (reversed(regs) if reg_swap else regs):
+                r()
+            for ctx, fd, e in (reversed(defs) if reg_swap else defs):
+                ctx.register_function(fd, exclusive=e)
+            m = contexts.MultiContext([Bc, A] if swap else [A, Bc])
+            out = []
+            fs, ex = m.get_functions('f')
+            out.append((sorted(fd.payload('x') for fd in fs), ex))
+            out.append([sorted(fd.payload('x') for fd in layer) for layer in m.collect_functions('f')])
+            for text in ('f(1)', '1.f()', "f('s')", 'g(1)', '1.g()'):
+                try:
+                    out.append(B.ENG(text).evaluate(context=m.create_child_context()))
+                except Exception as e:
+                    out.append(type(e).__name__)
+            return out
+        base = build(False, False)
+        ok = build(True, False) == base and build(False, True) == base and build(True, True) == base
+    return H.done(ok)
+
+
 def fam1(s01, s02, s10, s12, s20, s21, m0, m1, m2, d0, d1, d2, z0, z1, z2, k0, k1, k2, recv):
     npos = 2 if recv else 1      # with a receiver there is one more position (the receiver itself)
     z = [z0, z1, z2]
@@ -178,6 +281,12 @@ def conditions(tier, seed):
                             'bounds': '3 candidates in layers %s, enumeration order %s vs identity, no specialization, '
                                       'symbolic map_args/get_delegate/lazy-position/no_kwargs answers' % (
                                           layers, X.PERMS3[p])})
+    out.append({'name': 'real_order', 'func': 'real_order', 'timeout': t,
+                'bounds': '3 real overloads typed int/object/str (symbolic choice) in one layer, all 6 enumeration orders vs identity, '
+                          'call positional / by keyword / as method (selectors; each path one concrete family)'})
+    out.append({'name': 'multi_order', 'func': 'multi_order', 'timeout': t,
+                'bounds': 'MultiContext([A,B]) vs ([B,A]) and both registration orders: overloads typed int/object/str, symbolic '
+                          'exclusive flags and function/method/extension kinds; one callable registered as function and as method'})
     for layers in ([0, 0, 0], [0, 0, 1], [0, 1, 1], [0, 1, 2]):
         out.append({'name': 'registration_order[layers=%s]' % ''.join(map(str, layers)), 'func': 'registration_order',
                     'timeout': t, 'param': {'layers': layers},
@@ -192,6 +301,12 @@ def conditions(tier, seed):
 
 def replay(cond, args):
     a = dict(args)
+    if cond['func'] in ('real_order', 'multi_order'):
+        import props.c06 as me
+        ok = getattr(me, cond['func'])(**a)
+        return {'reproduced': not ok, 'key': 'C06/%s' % cond['func'],
+                'what': '%s: real overloads %r give different layers/outcomes under a different enumeration, member or '
+                        'registration order' % (cond['func'], a)}
     if cond['func'] == 'registration_order':
         ok = registration_order(**a)
         return {'reproduced': not ok, 'key': 'C06/registration-order',
